@@ -13,7 +13,8 @@ META = {
     'text': 'Theorems (Properties_C13.v) show for EVERY message over 16-bit strings (a superset of well-formed Unicode), every attribute '
             'list and both modes that the model output parses back to exactly the object that was written, that every built-in field '
             'and every non-shadowing custom attribute is found under its name with exactly its value, and that compact output holds no '
-            'character below U+0020 (hence no LF/CR).  The model is the one extracted and compared byte for byte with the real '
+            'character below U+0020 (hence no LF/CR); a number held by any numeric QVariant type (int, uint, qlonglong, qulonglong, double, float) inside '
+            'the range of the type is read back as that number, and its decimal text identifies it.  The model is the one extracted and compared byte for byte with the real '
             'JsonFormatter on generated messages; the source-derived constants are re-read on every run.',
     'note': 'Trusted: Coq 8.16.1 kernel (vm_compute only for the closed configuration check), no axioms; tools/s2c/json.py (regex translation of '
             'logmessage.h allAttributes()/qtMsgTypeToString and jsonformatter.cpp), extraction (ExtrOcamlBasic only), ocaml/drv_json.ml, '
@@ -244,6 +245,15 @@ def shrink_case(c, still_fails):
         t = dict(cur); t[field] = simple
         if still_fails(t):
             cur = t
+    # a numeric attribute value: a smaller boundary value of the same type that still fails
+    for n, (k, v) in enumerate(cur['attrs']):
+        if v[0] in J.NUM_TOKENS:
+            for cand in (0, 1, -1, 2 ** 31 - 1, 2 ** 31, -(2 ** 31), 2 ** 32 - 1, 2 ** 32):
+                if abs(cand) < abs(v[1]) and J.NUM_TYPES[v[0]][1] <= cand <= J.NUM_TYPES[v[0]][2]:
+                    t = dict(cur); t['attrs'] = cur['attrs'][:n] + [(k, (v[0], cand))] + cur['attrs'][n + 1:]
+                    if still_fails(t):
+                        cur = t
+                        break
     return cur
 
 
@@ -365,6 +375,18 @@ def run():
         d = describe(c, r)
         d['kind'] = 'correspondence'
         chk.broke('correspondence: extracted writer model and JsonFormatter differ on %d of %d messages' % (len(diffs), len(cases)), d)
+    # observation probe (not part of the verdict, not modelled): integer QVariant types for which QJsonValue::fromVariant of
+    # Qt 5.15 has no case (long, ulong, short, ushort) - how does the record carry the attribute value 5 / -7?
+    other_int = {}
+    probe = [('l', 'long', 5), ('l', 'long', -7), ('L', 'unsigned long', 5), ('h', 'short', 5), ('h', 'short', -7), ('H', 'unsigned short', 5)]
+    rc, o, err = vlib.run_lines(impl, ['1 0 - 0 0063 0066 0067 1 1 %s %s%d' % (J.hx(J.units('p')), t, z) for t, _, z in probe])
+    if rc == 0 and len(o) == len(probe):
+        for (t, name, z), line in zip(probe, o):
+            try:
+                got = J.loads_strict(J.pystr(J.unhx(line.split(' ')[2]))).get('p', '<absent>')
+            except Exception as e:
+                got = 'unparsable: %s' % e
+            other_int['%s %d' % (name, z)] = 'number %r (exact)' % got if J.same(got, z) else '%s %r (NOT the number)' % (type(got).__name__, got)
     wf_cases = [c for c in cases if c['stream'] != 'malformed']
 
     def nontrivial(c):
@@ -387,6 +409,7 @@ def run():
         'duplicate_attribute_names': sum(1 for c in cases if len({tuple(k) for k, _ in c['attrs']}) < len(c['attrs'])),
         'path_like_strings': {f: sum(1 for c in cases if c[f] and J.path_shapes(J.pystr(c[f]))) for f in ('cat', 'file', 'fn')},
         'numeric_type_histogram': {J.NUM_TYPES[t][0]: hist.get('num_' + J.NUM_TYPES[t][0], 0) for t in J.NUM_TOKENS},
+        'observation_other_integer_qvariant_types': other_int,
         'generator_histogram': dict(sorted(hist.items())),
     })
     for i in (0, len(cases) // 3, len(cases) - 1):
